@@ -1,6 +1,8 @@
 #!/bin/sh
-# runs the quick check of every claimed property; prints one summary line each
+# runs the quick check of every claimed property; prints one summary line each (and the check's real exit status)
 cd "$(dirname "$0")/.."
 for p in $(python3 -c "import json;print(' '.join(c['property_id'] for c in json.load(open('MANIFEST.json'))['checks']))"); do
-  bin/vcgo check -p $p -tier ${1:-quick} | tail -n 3; echo "  exit=$?"
+  bin/vcgo check -p $p -tier ${1:-quick} > /tmp/all-$p.out 2>&1; rc=$?
+  grep -v "^KNOWN-FINDING" /tmp/all-$p.out | tail -n 3; echo "  $p exit=$rc"
+  rm -f /tmp/all-$p.out
 done
